@@ -1,4 +1,4 @@
-\* MUST FAIL: the strict property on the code as found (no tolerated findings): P_C06_Never and P_C06_Mesh
+\* MUST FAIL: the code as found before the repairs D21 (early return when topics[t] is absent) and D22 (fanout used without re-checking topics[t]), and a batch handing local-only messages to the router: P_C06_Mesh / P_C06_Never
 SPECIFICATION SpecAll
 CONSTANTS
   PeerSeq <- Seq3
@@ -19,6 +19,7 @@ CONSTANTS
   ExcludeSource = TRUE
   EarlyReturn = TRUE
   FanoutUnfiltered = TRUE
+  BatchLocalSkipped = FALSE
   Tolerated = {}
 INVARIANTS TypeOK P_C06_Never P_C06_Direct P_C06_Flood P_C06_Mesh P_C06_Fanout P_C06_FanoutStable P_C06_FloodPublish P_C06_Floodsub P_C06_Randomsub
 CHECK_DEADLOCK FALSE
